@@ -42,7 +42,38 @@ def vc_exprs(eng, ob, mode="prove"):
     # revealed (bit-level) obligations are solved without quantified lemma axioms: a quantifier in the context makes pure
     # bit-vector queries undecided (DESIGN appendix F, lesson 2)
     ax = list(eng.prelude_axioms) if (ob.use_axioms and not ob.reveal) else []
-    return ax + hyps + [z3.Not(goal)]
+    goal, sks = skolemize_goal(goal)
+    inst = instantiate_at(hyps, sks) if sks else []
+    return ax + hyps + inst + [z3.Not(goal)]
+
+def skolemize_goal(goal):
+    """And(.., ForAll k. P(k), ..)  ->  And(.., P(sk), ..) with fresh sk (universal generalisation); returns (goal', [sk...])"""
+    sks = []
+    def sk(g):
+        if z3.is_quantifier(g) and g.is_forall():
+            cs = [z3.FreshConst(g.var_sort(i), "sk") for i in range(g.num_vars())]
+            sks.extend(cs)
+            return sk(z3.substitute_vars(g.body(), *reversed(cs)))
+        if z3.is_and(g): return z3.And(*[sk(c) for c in g.children()])
+        if z3.is_implies(g): return z3.Implies(g.arg(0), sk(g.arg(1)))
+        return g
+    return sk(goal), sks
+
+def instantiate_at(hyps, sks):
+    """explicit instances of single-variable quantified hypotheses at the goal's skolem constants (and their neighbours).
+    Instances are consequences of the hypotheses, so this only helps the solver; the quantified hypotheses stay in place."""
+    out = []
+    def quants(h):
+        if z3.is_quantifier(h) and h.is_forall() and h.num_vars() == 1: yield h
+        elif z3.is_and(h):
+            for c in h.children(): yield from quants(c)
+    for h in hyps:
+        for q in quants(h):
+            for c in sks:
+                if c.sort() != q.var_sort(0): continue
+                terms = [c] + ([c - 1, c + 1] if z3.is_int(c) else [])
+                for t in terms: out.append(z3.substitute_vars(q.body(), t))
+    return out
 
 _BV_OK = None
 def generalize_qfbv(e):
@@ -108,6 +139,29 @@ def solve_one(i):
                     res.update(result="proved", backend=res["backend"] + " (QF_BV, goal generalised)", secs=round(time.time() - t0, 3)); return res
             except (ValueError, z3.Z3Exception):
                 pass
+        # quantifier-free attempt: quantified hypotheses and lemma axioms replaced by their explicit instances at the goal's
+        # skolem constants (fewer hypotheses: `unsat` is still a proof); avoids the seed-sensitive quantifier engine
+        if not ob.reveal:
+            try:
+                full = vc_exprs(eng, ob)
+                flat = []
+                for e in full:
+                    stack = [e]
+                    while stack:
+                        x = stack.pop()
+                        if z3.is_and(x): stack.extend(x.children())
+                        else: flat.append(x)
+                lite = [e for e in flat if not _has_quantifier(e)]; full = flat
+                from pyvc.engine import _light
+                # (A) recursive spec functions abstracted to uninterpreted ones (weaker facts; no unfolding)  (B) with their definitions
+                attempts = [("quantifier-free instances, spec functions uninterpreted", [x for x in (_light(e) for e in lite) if x is not None], 1500)]
+                if len(lite) < len(full): attempts.append(("quantifier-free instances", lite, 2000))
+                for label, exprs_, tmo_ in attempts:
+                    sol = z3.Solver(); sol.set("timeout", int(min(budget, tmo_))); sol.add(*exprs_)
+                    if sol.check() == z3.unsat:
+                        res.update(result="proved", backend=res["backend"] + f" ({label})", secs=round(time.time() - t0, 3)); return res
+            except z3.Z3Exception:
+                pass
         for phase, tmo in (("quick", first), ("refute", None), ("full", budget)):
             if phase == "refute":
                 if not opts.get("refute", True): continue
@@ -162,6 +216,16 @@ def _refute(eng, ob, opts):
             w = _witness(eng, ob, sol.model()); w["relaxed_candidate"] = True
             return w, "unbounded (relaxed candidate)"
     return None
+
+def _has_quantifier(e):
+    seen = set(); stack = [e]
+    while stack:
+        x = stack.pop()
+        if x.get_id() in seen: continue
+        seen.add(x.get_id())
+        if z3.is_quantifier(x): return True
+        if z3.is_app(x): stack.extend(x.children())
+    return False
 
 def _mentions_spec_fn(e):
     seen = set(); stack = [e]
@@ -225,3 +289,42 @@ def cross_check(eng, ob, solver="z3-4.8.12", timeout_s=20):
         return "unknown"
     finally:
         os.unlink(path)
+
+# ----------------------------------------------------------------------------- groups built and discharged in child processes
+def freeze(ob):
+    """picklable summary of a discharged obligation (z3 terms replaced by text)"""
+    from pyvc.engine import Obligation
+    meta = {k: v for k, v in ob.meta.items() if isinstance(v, (str, int, float, bool, type(None)))}
+    o = Obligation(ob.oid, [None] * len(ob.hyps), str(ob.goal)[:300], ob.line, ob.reveal, ob.kind, ob.func, ob.use_axioms, ob.expect_refuted, meta)
+    o.result, o.secs, o.backend, o.model, o.detail = ob.result, ob.secs, ob.backend, ob.model, ob.detail
+    return o
+
+def _group_child(conn, fn, args, budget_ms, workers):
+    try:
+        eng, obls, info = fn(*args)
+        discharge(eng, obls, budget_ms=budget_ms, workers=workers)
+        conn.send(("ok", [freeze(o) for o in obls], info, dict(eng.stats), sorted(eng.derived)))
+    except BaseException as ex:
+        from pyvc.engine import Unsupported
+        conn.send(("unsupported" if isinstance(ex, Unsupported) else "error", f"{type(ex).__name__}: {ex}\n" + traceback.format_exc()[-1500:], None, {}, []))
+    finally:
+        conn.close()
+
+def run_groups(tasks, budget_ms=12000, workers_each=None):
+    """tasks: list of (name, fn, args); fn(*args) -> (engine, obligations, info).  Each group is built AND discharged in its own forked
+    process (the z3 objects never cross a process boundary); returns [(name, status, frozen-obligations | message, info, stats, derived)]"""
+    ctx = mp.get_context("fork")
+    ncpu = os.cpu_count() or 4
+    workers_each = workers_each or max(2, ncpu // max(1, len(tasks)))
+    procs = []
+    for name, fn, args in tasks:
+        pc, cc = ctx.Pipe(duplex=False)
+        p = ctx.Process(target=_group_child, args=(cc, fn, args, budget_ms, workers_each)); p.daemon = False; p.start(); cc.close()
+        procs.append((name, p, pc))
+    out = []
+    for name, p, pc in procs:
+        try: msg = pc.recv()
+        except EOFError: msg = ("error", "child process died without a result", None, {}, [])
+        p.join()
+        out.append((name,) + tuple(msg))
+    return out
